@@ -8,6 +8,7 @@ package main
 // "the printed formula is what the solver sees".
 
 import (
+	"regexp"
 	"bytes"
 	"context"
 	"fmt"
@@ -459,12 +460,121 @@ func Discharge(dir, name, decls string, assumptions []T, goal T, timeoutS int, a
 	if goal.S == "false" && relaxedModel != "" && timeoutS > 3 {
 		timeoutS = 3 // a path-feasibility question with a candidate model in hand
 	}
+	// Stage 2: array comprehensions (arrayOf constants, each defined by a
+	// quantified assertion) that the goal does not mention are sliced away
+	// together with every assumption that mentions them.  Fewer assumptions
+	// again, so `unsat` carries over to the full query.
+	if sliced, ok := sliceComprehensions(decls, assumptions, goal); ok {
+		sfile := filepath.Join(dir, sanitize(name)+".sliced.smt2")
+		if err := os.WriteFile(sfile, []byte(sliced), 0o644); err == nil {
+			r := solveFile(sfile, timeoutS, false)
+			if r.Verdict == "unsat" {
+				r.Solver += "(comprehension-sliced)"
+				return r
+			}
+		}
+	}
 	res := solveFile(file, timeoutS, all)
 	if res.Verdict != "unsat" && relaxedModel != "" {
 		res.Output = "candidate model (quantifier-free relaxation, z3-new):\n" + relaxedModel + "\n--- full query output ---\n" + res.Output
 		res.Relaxed = relaxedModel
 	}
 	return res
+}
+
+var reArrConst = regexp.MustCompile(`cmp\.[A-Za-z0-9_]+![0-9]+`)
+
+// sliceComprehensions builds the query without the comprehension constants the
+// goal does not mention (ok == false if there is nothing to slice).
+func sliceComprehensions(decls string, assumptions []T, goal T) (string, bool) {
+	inGoal := map[string]bool{}
+	for _, c := range reArrConst.FindAllString(goal.S, -1) {
+		inGoal[c] = true
+	}
+	drop := map[string]bool{}
+	for _, c := range reArrConst.FindAllString(decls, -1) {
+		if !inGoal[c] {
+			drop[c] = true
+		}
+	}
+	if len(drop) == 0 {
+		return "", false
+	}
+	mentionsDropped := func(t string) bool {
+		for _, c := range reArrConst.FindAllString(t, -1) {
+			if drop[c] {
+				return true
+			}
+		}
+		return false
+	}
+	var kept []string
+	for _, a := range assumptions {
+		if a.S == "true" || mentionsDropped(a.S) {
+			continue
+		}
+		kept = append(kept, a.S)
+	}
+	// axioms about functions that no remaining assumption (nor the goal) uses go too
+	var funs []string
+	for _, l := range strings.Split(decls, "\n") {
+		if strings.HasPrefix(l, "(declare-fun ") {
+			f := strings.Fields(l[len("(declare-fun "):])
+			if len(f) > 0 {
+				funs = append(funs, f[0])
+			}
+		}
+	}
+	inUse := func(fn string) bool {
+		pat := "(" + fn + " "
+		if strings.Contains(goal.S, pat) {
+			return true
+		}
+		for _, a := range kept {
+			if strings.Contains(a, pat) {
+				return true
+			}
+		}
+		return false
+	}
+	used := map[string]bool{}
+	for _, f := range funs {
+		if inUse(f) {
+			used[f] = true
+		}
+	}
+	var b strings.Builder
+	b.WriteString(smtHeader)
+	for _, l := range strings.Split(decls, "\n") {
+		if strings.HasPrefix(l, "(assert") {
+			if mentionsDropped(l) {
+				continue
+			}
+			mentionsAny, mentionsUsed := false, false
+			for _, f := range funs {
+				if strings.Contains(l, "("+f+" ") {
+					mentionsAny = true
+					if used[f] {
+						mentionsUsed = true
+					}
+				}
+			}
+			if mentionsAny && !mentionsUsed {
+				continue
+			}
+		}
+		b.WriteString(l)
+		b.WriteByte('\n')
+	}
+	for _, a := range kept {
+		b.WriteString("(assert ")
+		b.WriteString(a)
+		b.WriteString(")\n")
+	}
+	b.WriteString("(assert (not ")
+	b.WriteString(goal.S)
+	b.WriteString("))\n(check-sat)\n(get-model)\n")
+	return b.String(), true
 }
 
 func solveFile(file string, timeoutS int, all bool) SolverResult {
